@@ -23,7 +23,7 @@ type string = Stdlib.String.t
 let kind_of_string s =
   if s = "single" then KSingle else if s = "sd" then KSearch false else if s = "sa" then KSearch true else if s = "unbind" then KUnbind
   else if String.length s > 2 && String.sub s 0 2 = "ab" then KAbandon (z_of_decimal (String.sub s 2 (String.length s - 2))) else failwith ("kind " ^ s)
-let rkind_of_string = function "e" -> REntry | "r" -> RRef | "i" -> RInter | "d" -> RDone | "o" -> ROther | "x" -> ROther | s -> failwith ("rkind " ^ s)
+let rkind_of_string = function "e" | "j" -> REntry | "r" -> RRef | "i" -> RInter | "d" -> RDone | "o" -> ROther | "x" -> ROther | s -> failwith ("rkind " ^ s)
 let cerr_str = function EResultRecv -> "resultrecv" | ETimeout -> "timeout" | EOpSend -> "opsend" | EEndOfStream -> "eos"
 let is_search_kind = function KSearch _ -> true | _ -> false
 
@@ -125,6 +125,9 @@ let run_script (toks : string list) : string =
   List.iter (fun tok ->
     (match String.split_on_char ':' tok with
      | ["S"; _; _] when !main_dropped -> ()      (* no handle left to start an operation from *)
+     | ["G"; ks] when not !main_dropped ->      (* several operations started back to back: each allocates, queues and polls once; one settle *)
+         List.iter (fun k -> let o = nops () in apply (Start (kind_of_string k, None)); if nops () > o then apply (CliPoll (nat_of_int o))) (String.split_on_char ',' ks)
+     | ["G"; _] -> ()
      | ["S"; k; tmo] ->
          (* the caller's task runs to its first await: it allocates the id, queues the request and polls its reply channel once *)
          let o = nops () in
@@ -135,6 +138,9 @@ let run_script (toks : string list) : string =
      | ["A"; ms] -> apply (Advance (z_of_decimal ms))
      | ["N"; o] -> let i = info (int_of_string o) in i.cmds <- i.cmds @ ['n']
      | ["F"; o] -> let i = info (int_of_string o) in i.cmds <- i.cmds @ ['f']
+     | ["L"; mid; count; first] ->      (* a flood of entries for one search, tokens 3t+1 *)
+         if not !partial then for t = int_of_string first to int_of_string first + int_of_string count - 1 do
+           apply (ServerSend { r_mid = z_of_decimal mid; r_kind = REntry; r_tok = nat_of_int (3 * t + 1) }) done
      | ["C"; o] -> let i = info (int_of_string o) in i.cmds <- i.cmds @ ['c']
      | ["M"; _; parts] ->
          if not !partial then List.iter (fun part -> match String.split_on_char '.' part with
